@@ -167,7 +167,8 @@ Definition tmpl_on (cfg : config) (n : string) (g : group) : bool := group_on g 
 
 Inductive ckind := Sync | Async.
 (* one method of a client class: python name, the key it looks up in transport._wrapped_methods (None: it wraps the
-   transport property itself with gapic_v1.method.wrap_method), the request field of its routing header *)
+   transport property itself at call time with gapic_v1.method.wrap_method / method_async.wrap_method), the request
+   field of its routing header *)
 Record cmethod := { m_name : string; m_lookup : option string; m_route : string; m_legacy : bool }.
 Definition client_mixin_methods (cfg : config) : list cmethod :=
   map (fun t => {| m_name := snake (t_name t); m_lookup := Some (snake (t_name t)); m_route := t_route t; m_legacy := false |})
@@ -176,7 +177,8 @@ Definition client_mixin_methods (cfg : config) : list cmethod :=
 Definition LEGACY : list string := ["SetIamPolicy"; "GetIamPolicy"; "TestIamPermissions"].
 Definition legacy_methods (k : ckind) (cfg : config) : list cmethod :=
   if c_add_iam cfg then
-    map (fun n => {| m_name := snake n; m_lookup := match k with Sync => None | Async => Some (snake n) end;
+    (* since /repo bb707ed the asyncio client wraps the transport property itself, as the sync client always did *)
+    map (fun n => {| m_name := snake n; m_lookup := match k with Sync => None | Async => None end;
                      m_route := "resource"; m_legacy := true |}) LEGACY
   else [].
 Definition client_methods (k : ckind) (cfg : config) : list cmethod := client_mixin_methods cfg ++ legacy_methods k cfg.
